@@ -581,5 +581,7 @@ ASSUMPTIONS = [
     "from history, not semantic correctness",
     "abort points are Python source lines of celpy and of transpiled <string> code; lark, re2, "
     "pendulum and CPython internals are atomic",
-    "host callables in programs are scripted stubs (sim/hostfuncs.py); everything else is real code",
+    "host callables in programs are scripted stubs (sim/hostfuncs.py); everything else is real code, "
+    "except that identical Lark parsers are constructed once per process and then loaded from "
+    "lark's own serialisation (checked against the real constructor by the determinism sample)",
 ]
